@@ -159,7 +159,8 @@ class State:
 
     _hv = itertools.count()
 
-    def havoc(self, tag, keep=None, raw=True, fields=True, err=None, ghost=True, keep_trace=False, keep_stack=()):
+    def havoc(self, tag, keep=None, raw=True, fields=True, err=None, ghost=True, keep_trace=False, keep_stack=(),
+              keep_records=()):
         """everything named becomes arbitrary (unless `keep`, a Bool, holds): existing entries and the defaults.
         keep_trace: the havoc models what a CALLEE may do; the engine's trace of the calls made by the body under
         verification ('tmp:calls:', 'tmp:arg:' ghosts, set at call sites only) is not the callee's to change"""
@@ -180,13 +181,18 @@ class State:
         if fields:
             odh = self.dh
             ndh = lambda key: z3.Array('H_%s_%s' % (uid, key), B64, z3.BitVecSort(int(key.rsplit(':', 1)[1])))
+            kept = lambda key: key.split(':')[0] in keep_records
             for key in list(self.fh):
-                self.fh[key] = mix(self.fh[key], ndh(key))
-            self.dh = ndh if keep is None else (lambda key: z3.If(keep, odh(key), ndh(key)))
+                if not kept(key):
+                    self.fh[key] = mix(self.fh[key], ndh(key))
+            if keep is None:
+                self.dh = lambda key: odh(key) if kept(key) else ndh(key)
+            else:
+                self.dh = lambda key: odh(key) if kept(key) else z3.If(keep, odh(key), ndh(key))
         if ghost:
             odg = self.dg
             ndg = lambda key, sort: z3.Const('g_%s_%s' % (uid, key), sort)
-            trace = (lambda key: keep_trace and key.startswith(('tmp:calls:', 'tmp:arg:')))
+            trace = (lambda key: keep_trace and key.startswith('tmp:'))
             for key in list(self.ghost):
                 if not trace(key):
                     self.ghost[key] = mix(self.ghost[key], ndg(key, self.ghost[key].sort()))
@@ -196,6 +202,16 @@ class State:
                 self.dg = lambda key, sort: odg(key, sort) if trace(key) else z3.If(keep, odg(key, sort), ndg(key, sort))
         if err is not None:
             self.err = mix(self.err, err)
+
+    def havoc_trace(self, tag, keep=lambda key: False):
+        """every variable of the call trace ('tmp:'), touched so far or not, becomes arbitrary -- except `keep(key)`"""
+        uid = "%s!tr%d" % (tag, next(State._hv))
+        odg = self.dg
+        ndg = lambda key, sort: z3.Const('g_%s_%s' % (uid, key), sort)
+        for key in list(self.ghost):
+            if key.startswith('tmp:') and not keep(key):
+                self.ghost[key] = ndg(key, self.ghost[key].sort())
+        self.dg = lambda key, sort: ndg(key, sort) if (key.startswith('tmp:') and not keep(key)) else odg(key, sort)
 
     def assume(self, c):
         if z3.is_true(c):
@@ -365,7 +381,13 @@ class Contract:
 
 class Frame:
     def __init__(self, raw=(), fields=(), err=False, ghost=(), all_fields=False, all_raw=False, havoc_if=None,
-                 all_raw_if=None):
+                 all_raw_if=None, trace=None):
+        self.trace = None if trace is None else list(trace)
+        #                               the engine's call trace ('tmp:' ghost variables: counts and arguments of calls to
+        #                               recorded callees and modelled externals).  None: this function may extend any
+        #                               trace -- at a call site every trace variable is arbitrary afterwards unless the
+        #                               post-condition pins it.  A list: only these trace variables may change; that
+        #                               is an obligation of the body ('ghost-unchanged:tmp:...') and a fact for callers
         self.all_raw_if = all_raw_if  # Bool: when true any byte may change, when false only the `raw` regions
         self.havoc_if = havoc_if      # Bool: when true the callee may change everything (outside the proved scope)
         self.raw = list(raw)          # [(addr, nbytes-term)]
@@ -376,9 +398,23 @@ class Frame:
         self.all_raw = all_raw
 
 
+def _has_quantifier(e, _seen=None):
+    _seen = set() if _seen is None else _seen
+    if e.get_id() in _seen:
+        return False
+    _seen.add(e.get_id())
+    if z3.is_quantifier(e):
+        return True
+    return any(_has_quantifier(ch, _seen) for ch in e.children())
+
+
 class LoopSpec:
     def __init__(self, invariant=None, unroll=None, raw=None, summarise=False, assume_exit=False, readonly=False,
-                 keep_fields=False, ghost_update=None):
+                 keep_fields=False, ghost_update=None, forget=()):
+        self.forget = tuple(forget)   # names of locals the loop does not assign whose VALUE is nevertheless forgotten at
+        #                               the head (as if assigned): what the iterations need to know about them must then
+        #                               be in the invariant.  Keeps hard defining expressions (floating point, division)
+        #                               out of every obligation of the loop
         self.ghost_update = ghost_update  # fn(c, state at the head of the iteration, state at its end) -> {ghost key: value}:
         #                                 ghost assignments made at the end of every iteration, before the invariant is
         #                                 checked again (ghost variables are never written by the code)
@@ -472,6 +508,7 @@ class Exec:
         self._alias_cache = {}
         self._outside_stores = {}
         self._callee_raw = {}           # id of a byte heap made by a call -> (heap before it, ids of private locals, term)
+        self._field_ptrs = {}           # id of an address term made by &x->f -> (term, the field location)
         self.alias_stats = {'proved': 0, 'open': 0}
         self.stack_syms = []
         self.calls = []                # names of callee contracts used
@@ -1170,9 +1207,18 @@ class Exec:
                         witness={'frame_p': a})
         if not fr.err and not _same(rst.err, self.err0):
             self.ob('frame', rline, 'error-indicator-unchanged', rst, rst.err == self.err0)
-        for gk, gv in rst.ghost.items():
+        if fr.trace is not None:
+            # trace variables never touched by name: a call that may extend any trace makes their default arbitrary
+            pv, p0 = rst.gvar('tmp:(any other trace variable)', B64), ghost0('tmp:(any other trace variable)', B64)
+            if not _same(pv, p0):
+                self.ob('frame', rline, 'ghost-unchanged:tmp:(any other trace variable)', rst, pv == p0)
+        for gk, gv in list(rst.ghost.items()):
             g0 = ghost0(gk, gv.sort())
-            if gk in fr.ghost or gk.startswith('g:') and gk[2:] in fr.ghost or gk.startswith('tmp:'):
+            if gk == 'tmp:(any other trace variable)':
+                continue
+            if gk in fr.ghost or gk.startswith('g:') and gk[2:] in fr.ghost:
+                continue
+            if gk.startswith('tmp:') and (fr.trace is None or gk in fr.trace or self.direct_key(gk)):
                 continue
             if not _same(gv, g0):
                 self.ob('frame', rline, 'ghost-unchanged:' + gk, rst, gv == g0)
@@ -1524,6 +1570,10 @@ class Exec:
             if did in self.memlocals or did in self.addr_taken:
                 acc['raw'] = True
             acc['vars'].add(did)
+            gname = lhs['referencedDecl'].get('name')
+            if did not in self.decl_types and gname in self.tu.globals:
+                # a C global assigned in the loop (kept as ghost 'g:<name>', not in the local environment)
+                acc.setdefault('globals', set()).add(gname)
         elif lhs.get('kind') == 'MemberExpr':
             acc['fields'] = True
             ft = self.tu.ctype_of(lhs)
@@ -1577,18 +1627,35 @@ class Exec:
             return merge_states(exits)
         # invariant mode
         c_entry = Ctx(self, self.args, self.st0, st)
+        proved_before = []
         for label, g, extra in _norm(spec.invariant(c_entry, st)):
-            self.ob('loop-entry', line, 'loop%d:%s' % (ordinal, label), st, g, hyps_extra=extra or ())
+            # (the clauses are obligations at one and the same state: a later one may use the earlier ones -- if an
+            #  earlier one fails it is reported itself; quantified clauses are not passed on, they only slow the others)
+            self.ob('loop-entry', line, 'loop%d:%s' % (ordinal, label), st, g, hyps_extra=list(extra or ()) + proved_before)
+            if not _has_quantifier(g):
+                proved_before = proved_before + [g]
         acc = {'vars': set(), 'mem': False, 'calls': False, 'raw': False, 'fields': False, 'err': False}
         for part in (cond, inc, body):
             if part:
                 self.assigned_in(part, acc)
         if spec.summarise:
             acc['calls'] = True
+        for nm in spec.forget:
+            if nm not in self.locals_by_name:
+                raise NotSupported("loop #%d of %s: no local named %s" % (ordinal, self.fname, nm))
+            acc['vars'].add(self.locals_by_name[nm])
         h = st.copy()
         for did in acc['vars']:
             if did in h.env:
                 h.env[did] = self.fresh('loop%d_%s' % (ordinal, self.decl_name(did)), h.env[did].sort())
+        for gname in sorted(acc.get('globals', ())):
+            for gk, srt in self.ghost_keys(h, gname):
+                h.ghost[gk] = self.fresh('loop%d_%s' % (ordinal, gname), srt)
+        if spec.ghost_update is not None:
+            # ghost variables assigned at the end of each iteration are arbitrary at the head as well
+            for gname in sorted(spec.ghost_update(Ctx(self, self.args, self.st0, h), h, h)):
+                for gk, srt in self.ghost_keys(h, gname):
+                    h.ghost[gk] = self.fresh('loop%d_%s' % (ordinal, gname), srt)
         if not spec.readonly:
             if acc['raw'] or acc['calls']:
                 newraw = self.fresh('loop%d_raw' % ordinal, z3.ArraySort(B64, B8))
@@ -1765,6 +1832,9 @@ class Exec:
             if rt.kind != 'record' or rt.name not in self.tu.records:
                 raise NotSupported("member access on %r" % (rt,))
             fields = self.tu.layout(rt.name)[2]
+            if not n.get('name'):
+                # the implicit member standing for an anonymous struct/union: its members are laid out in the parent
+                return Loc('mem', rt, p)
             if n['name'] not in fields:
                 raise NotSupported("unknown field " + n['name'])
             off, ft2, bits_ = fields[n['name']]
@@ -1788,6 +1858,9 @@ class Exec:
             return Loc('mem', et, p + i * BV(max(et.size, 1), 64))
         if k == 'UnaryOperator' and n['opcode'] == '*':
             p = self.ev(n['inner'][0], st)
+            hit = self._field_ptrs.get(p.get_id()) if z3.is_expr(p) else None
+            if hit is not None and hit[1].ctype.size == self.tu.ctype_of(n).size:
+                return hit[1]
             return Loc('mem', self.tu.ctype_of(n), p)
         if k in ('ImplicitCastExpr', 'CStyleCastExpr') and n.get('castKind') in ('NoOp', 'LValueBitCast'):
             return self.lv(n['inner'][0], st)
@@ -1968,7 +2041,13 @@ class Exec:
         sub = n['inner'][0]
         t = self.tu.ctype_of(n)
         if op == '&':
-            return self.addr_of(self.lv(sub, st))
+            loc = self.lv(sub, st)
+            a = self.addr_of(loc)
+            if loc.kind == 'field':
+                # the address of a member held in a field heap: remembered, so that `*ptr` with this very term goes to
+                # the member (Py_CLEAR(x->f) takes &x->f); other routes to the same bytes are not tracked (A-SEP)
+                self._field_ptrs[a.get_id()] = (a, loc)
+            return a
         if op == '*':
             tt = self.tu.ctype_of(n)
             if tt.kind == 'func':
@@ -2204,12 +2283,12 @@ class Exec:
             return self.call_inline(name, st, args, n)
         raise NotSupported("call to %s (line %s): no contract, model or inline mark" % (name, line_of(n)))
 
-    def callee_havoc(self, st, tag, args=(), keep=None, err=None):
+    def callee_havoc(self, st, tag, args=(), keep=None, err=None, keep_records=()):
         """a callee may change everything (unless `keep`) -- except this frame's private locals and the engine's
         call trace"""
         priv = self.private_stack(args)
         st.last_callee_raw = None
-        st.havoc(tag, keep=keep, err=err, keep_trace=True, keep_stack=priv)
+        st.havoc(tag, keep=keep, err=err, keep_trace=True, keep_stack=priv, keep_records=keep_records)
         if priv and getattr(st, 'last_callee_raw', None) is not None:
             before, lam, fresh = st.last_callee_raw
             privset = {k for k, sym in enumerate(self.stack_syms) if any(sym[0].eq(p[0]) for p in priv)}
@@ -2226,6 +2305,35 @@ class Exec:
                     given.add(sp[2])
         return [sym for k, sym in enumerate(self.stack_syms) if k not in given]
 
+    def direct_key(self, key):
+        """'tmp:calls:<f>' / 'tmp:arg:<f>:<param>' for a callee f whose contract has record_calls: the engine's record of
+        the calls the body under verification makes DIRECTLY.  Local bookkeeping of one body: no callee can change it,
+        and no callee's post-condition may speak about it (checked at every call site)"""
+        if key.startswith('tmp:calls:'):
+            f = key[len('tmp:calls:'):]
+        elif key.startswith('tmp:arg:'):
+            f = key[len('tmp:arg:'):].split(':')[0]
+        else:
+            return False
+        return any(getattr(k, 'record_calls', False) and (k.function or k.name) == f for k in self.reg.contracts.values())
+
+    def _mentions_direct_key(self, e, seen):
+        if e.get_id() in seen:
+            return None
+        seen.add(e.get_id())
+        if z3.is_const(e) and e.decl().kind() == z3.Z3_OP_UNINTERPRETED:
+            nm = e.decl().name()
+            k = nm.find('tmp:')
+            if k >= 0 and self.direct_key(nm[k:]):
+                return nm
+        for ch in e.children():
+            r = self._mentions_direct_key(ch, seen)
+            if r:
+                return r
+        if z3.is_quantifier(e):
+            return self._mentions_direct_key(e.body(), seen)
+        return None
+
     def call_contract(self, con, name, st, args, n):
         fd = self.tu.functions.get(name) or self.tu.fundecls[name]
         pnames = [c['name'] for c in fd.get('inner', []) if c['kind'] == 'ParmVarDecl']
@@ -2233,13 +2341,16 @@ class Exec:
         self.calls.append(name)
         if con.trusted:
             self.trusted_used.add(name)
+        recorded = set()
         if getattr(con, 'record_calls', False):
             # ghost call trace, kept by the engine at the call site: number of calls so far and the arguments of
-            # the latest one ('tmp:' ghosts are exempt from frame obligations)
+            # the latest one
             st.ghost['tmp:calls:' + name] = st.gvar('tmp:calls:' + name, B64) + 1
+            recorded.add('tmp:calls:' + name)
             for pn, av in argmap.items():
                 if av is not None:
                     st.ghost['tmp:arg:%s:%s' % (name, pn)] = av
+                    recorded.add('tmp:arg:%s:%s' % (name, pn))
         old = st.copy()
         c = Ctx(self, argmap, old)
         for label, p, extra in _norm(con.pre(c)):
@@ -2296,10 +2407,24 @@ class Exec:
             # (a ghost variable the callee may change: arbitrary afterwards, whether or not it was touched before)
             for gk2, srt in self.ghost_keys(st, gk):
                 st.ghost[gk2] = self.fresh('g_after_' + name, srt)
+        if not con.pure:
+            if fr.trace is None:
+                # (what the callee adds to the trace of external events is unknown here; the record of the calls THIS
+                #  body makes directly is not the callee's to change)
+                st.havoc_trace('after_' + name, keep=self.direct_key)
+            else:
+                for gk in fr.trace:
+                    if gk not in recorded and not self.direct_key(gk):
+                        for gk2, srt in self.ghost_keys(st, gk):
+                            st.ghost[gk2] = self.fresh('g_after_' + name, srt)
         if fr.havoc_if is not None and not self.known(old, z3.Not(fr.havoc_if)):
             self.callee_havoc(st, 'havoc_' + name, args, keep=z3.Not(fr.havoc_if), err=self.fresh('err_havoc_' + name, B64))
         c2 = Ctx(self, argmap, old, st, res)
         for label, q, extra in _norm(con.post(c2)):
+            bad = self._mentions_direct_key(q, set())
+            if bad:
+                raise NotSupported("the post-condition of %s used at a call site speaks about the record of its own direct "
+                                   "calls (%s)" % (name, bad))
             st.assume(q)
         for (addr, nb) in con.allocates(c2):
             self.alloc(st, nb, region=addr)
